@@ -273,8 +273,8 @@ theorem progress_keeps {L : Option J} {A0 : Option Kvs} {k : String} :
     obtain ⟨e0, h0, h3⟩ := bind_ok h1
     obtain ⟨hd, hhd, hne⟩ := hav f List.mem_cons_self
     obtain ⟨td, thd, tne⟩ := hav t (List.mem_cons_of_mem _ List.mem_cons_self)
-    have g0 : e0.get? "metadata" = (J.obj l).get? "metadata" := remove2_get? hhd thd hne tne (liftD_ok h0)
-    have o0 : e0.isObj = true := remove2_isObj rfl (liftD_ok h0)
+    have g0 : e0.get? "metadata" = (J.obj l).get? "metadata" := ignoreFields_get? "metadata" [f, t] _ e0 (avoidKey_two hhd thd hne tne) h0
+    have o0 : e0.isObj = true := ignoreFields_isObj [f, t] (.obj l) e0 rfl h0
     cases e0 with
     | obj l0 =>
       cases hm : metaOK (.obj l0) with
